@@ -57,6 +57,7 @@ package client
 //@   && (istype(old(c.qs.pendq.Ops[op.Id]).Op.Entry, *spb.AFTOperation_NextHopGroup) ==> result0.Details.NextHopGroupID == old(c.qs.pendq.Ops[op.Id]).Op.GetNextHopGroup().GetId())
 //@   && (istype(old(c.qs.pendq.Ops[op.Id]).Op.Entry, *spb.AFTOperation_NextHop) ==> result0.Details.NextHopIndex == old(c.qs.pendq.Ops[op.Id]).Op.GetNextHop().GetIndex())
 //@ ensures[error-or-result] result1 != nil ==> result0 == nil
+//@ ensures[removed-has-result] op.Id in old(dom(c.qs.pendq.Ops)) && !(op.Id in dom(c.qs.pendq.Ops)) ==> result0 != nil && result1 == nil
 //@ ensures[wf] qsWF(c)
 //@ assigns c.qs.pendq.Ops[op.Id]
 //@ props C13 C11:lock
@@ -128,12 +129,14 @@ package client
 //@ ensures[nil] m == nil ==> result0 != nil
 //@ ensures[results-non-nil] resultqWF(c)
 //@ ensures[results-kept] len(c.qs.resultq) >= old(len(c.qs.resultq)) && (forall i in 0..old(len(c.qs.resultq)) :: c.qs.resultq[i] == old(c.qs.resultq[i]))
+//@ ensures[never-lost] forall k in old(dom(c.qs.pendq.Ops)) :: k in dom(c.qs.pendq.Ops) || (exists j in old(len(c.qs.resultq))..len(c.qs.resultq) :: c.qs.resultq[j].OperationID == k)
 //@ ensures[exclusive] m != nil && ((len(m.Result) != 0 && m.ElectionId != nil) || (len(m.Result) != 0 && m.SessionParamsResult != nil) || (m.ElectionId != nil && m.SessionParamsResult != nil))
 //@   ==> result0 != nil && len(c.qs.resultq) == old(len(c.qs.resultq)) && dom(c.qs.pendq.Ops) == old(dom(c.qs.pendq.Ops))
 //@ ensures[wf] qsWF(c)
 //@ loop 1 invariant loopi <= 3 && pop == ite(loopi >= 1 && resPop, 1, 0) + ite(loopi >= 2 && elecPop, 1, 0) + ite(loopi >= 3 && sessPop, 1, 0)
 //@ loop 2 at "range m.Result" invariant qsWF(c) && resultqWF(c) && held(c.qs.resultMu) == 2 && held(c.qs.pendMu) == 0
 //@ loop 2 invariant len(c.qs.resultq) >= old(len(c.qs.resultq)) && (forall i in 0..old(len(c.qs.resultq)) :: c.qs.resultq[i] == old(c.qs.resultq[i]))
+//@ loop 2 invariant[never-lost] forall k in old(dom(c.qs.pendq.Ops)) :: k in dom(c.qs.pendq.Ops) || (exists j in old(len(c.qs.resultq))..len(c.qs.resultq) :: c.qs.resultq[j].OperationID == k)
 //@ assigns c.qs.resultq, contents(c.qs.pendq.Ops), c.qs.pendq.Election, c.qs.pendq.SessionParams
 //@ props C13 C11:lock
 
@@ -175,4 +178,27 @@ package client
 //@ ensures[nil-means-converged-and-error-free] result0 == nil ==> quiescent(c)
 //@ loop 1 invariant clientQuiet(c)
 //@ assigns nothing
+//@ props C13 C11:lock
+
+// q hands the request to the sender goroutine: at most one message, and only this one, is put
+// on the modify channel.
+//@ unit Client.q
+//@ requires c != nil && c.qs != nil && held(c.awaiting) == 0
+//@ ensures[at-most-this] len(sent(c.qs.modifyCh)) == old(len(sent(c.qs.modifyCh))) || (len(sent(c.qs.modifyCh)) == old(len(sent(c.qs.modifyCh))) + 1 && sent(c.qs.modifyCh)[old(len(sent(c.qs.modifyCh)))] == m)
+//@ assigns sent(c.qs.modifyCh)
+//@ props C13 C11:lock
+
+// Q: every operation of the request is registered as pending (or the failure is recorded as a
+// send error), nothing already pending is lost, and the request itself - not a copy, not another
+// one - is what is queued for sending or handed to the sender.
+//@ unit Client.Q
+//@ requires qsWF(c) && m != nil && held(c.awaiting) == 0 && held(c.qs.sendMu) == 0 && held(c.sendErrMu) == 0
+//@ requires[wire-valid] forall i in 0..len(m.Operation) :: m.Operation[i] != nil && oneofOK(m.Operation[i].Entry) && (m.Operation[i].GetMpls() != nil ==> oneofOK(m.Operation[i].GetMpls().Label))
+//@ ensures[registered-or-error] len(c.sendErr) == old(len(c.sendErr)) ==> (forall i in 0..len(m.Operation) :: m.Operation[i].Id in dom(c.qs.pendq.Ops))
+//@ ensures[nothing-lost] forall k in old(dom(c.qs.pendq.Ops)) :: k in dom(c.qs.pendq.Ops) && c.qs.pendq.Ops[k] == old(c.qs.pendq.Ops[k])
+//@ ensures[queued-or-sent] (len(c.qs.sendq) == old(len(c.qs.sendq)) + 1 && c.qs.sendq[old(len(c.qs.sendq))] == m && len(sent(c.qs.modifyCh)) == old(len(sent(c.qs.modifyCh))))
+//@   || (len(c.qs.sendq) == old(len(c.qs.sendq)) && len(sent(c.qs.modifyCh)) <= old(len(sent(c.qs.modifyCh))) + 1)
+//@ ensures[queue-kept] forall i in 0..old(len(c.qs.sendq)) :: c.qs.sendq[i] == old(c.qs.sendq[i])
+//@ ensures[wf] qsWF(c)
+//@ assigns contents(c.qs.pendq.Ops), c.qs.pendq.Election, c.qs.pendq.SessionParams, c.sendErr, c.qs.sendq, sent(c.qs.modifyCh)
 //@ props C13 C11:lock
